@@ -1,6 +1,8 @@
 package main
 
 import (
+	"strconv"
+	"regexp"
 	"fmt"
 	"go/ast"
 	"go/token"
@@ -510,6 +512,20 @@ func g13Fields(c *Ctx) {
 // find methods promoted from embedded fields, whose receiver is only a part of the value; (2) tabulated by abstract
 // interpretation: every path that answers "has the method" has tested the method's name, its parameter count, its result
 // count and (where the contract fixes it) the basic kind of its result.
+var kindCmpRe = regexp.MustCompile(`\.Kind\(\)(==|!=)(\d+)$`)
+
+// methodResultKinds: predicate -> basic kinds (go/types numbering) of the method result that its accepting paths require.
+var methodResultKinds = map[string][]int{}
+
+func appendUniqueInt(l []int, k int) []int {
+	for _, x := range l {
+		if x == k {
+			return l
+		}
+	}
+	return append(l, k)
+}
+
 type methodSpec struct {
 	fn       string
 	method   string
@@ -586,6 +602,18 @@ func g9Methods(c *Ctx, specs ...methodSpec) {
 			}
 			if yes {
 				accepted++
+				// the basic kind of the method's result that this accepting path insisted on (if any)
+				for _, d := range in.decisions {
+					if !strings.Contains(d.Sym, ".Kind()") {
+						continue
+					}
+					if m := kindCmpRe.FindStringSubmatch(d.Sym); m != nil {
+						k, _ := strconv.Atoi(m[2])
+						if (m[1] == "!=" && d.Choice == 1) || (m[1] == "==" && d.Choice == 0) {
+							methodResultKinds[sp.fn] = appendUniqueInt(methodResultKinds[sp.fn], k)
+						}
+					}
+				}
 				var missing []string
 				has := func(pred func(d Decision) bool) bool {
 					for _, d := range in.decisions {
